@@ -73,17 +73,22 @@ def main():
         return a
 
     reg = get_type_registry()
-    out = []
-    for spec in specs:
+    # every node hashes the batch in its own order: the hash of a value must not depend on
+    # what the process hashed before
+    order = list(range(len(specs)))
+    random.Random(int(sys.argv[1]) + 1).shuffle(order)
+    out = [None] * len(specs)
+    for i in order:
+        spec = specs[i]
         try:
             v = build(spec, rng)
             # the hash the scheduler keys arguments with, and the hash the backend records the
             # same argument / result under (record_value: get_hash(data=serialize()))
             iface = reg.get_value(v)
-            out.append(reg.get_hash(v) + "|" + iface.get_hash(data=iface.serialize())
-                       + "|" + arg_hashes(reg, v))
+            out[i] = (reg.get_hash(v) + "|" + iface.get_hash(data=iface.serialize())
+                      + "|" + arg_hashes(reg, v))
         except Exception as e:  # noqa
-            out.append("ERR:" + type(e).__name__)
+            out[i] = "ERR:" + type(e).__name__
     json.dump(out, sys.stdout)
 
 
